@@ -27,6 +27,7 @@ func propC14() Property {
 			{ID: "C14-R3", Desc: "integer scanner: digits only, non-empty, sign only in front, accumulation guarded", Min: 4, Run: c14R3},
 			{ID: "C14-R4", Desc: "float whitelist: digits, '.', '-' only, before the value is stored", Min: 3, Run: c14R4},
 			{ID: "C14-R5", Desc: "timestamp writers format the UTC wall clock", Min: 1, Run: c14R5},
+			{ID: "C14-R7", Desc: "timestamp fraction separator is '.', never time.Parse's comma", Min: 3, Run: c14R7},
 			{ID: "C14-R6", Desc: "negative integers: scanner limit is the positive limit plus one", Min: 1, Run: c14R6},
 		},
 	}
@@ -210,6 +211,7 @@ func propC18() Property {
 			{ID: "C18-R4", Desc: "wall-clock components are read in the configured zone", Min: 6, Run: c18R4},
 			{ID: "C18-R5", Desc: "no decision arm of the schedule code is dead by contradiction", Min: 10, Run: c18R5},
 			{ID: "C18-R6", Desc: "start/end time comparisons have one polarity (start < end)", Min: 2, Run: c18R6},
+			{ID: "C18-R8", Desc: "weekly close on the end day depends on the end time", Min: 1, Run: c18R8},
 			{ID: "C18-R7", Desc: "overnight weekday attribution; wall-clock from one time-of-day", Min: 3, Run: c18R7},
 		},
 	}
